@@ -287,4 +287,6 @@ type Obligation struct {
 	Ctx    *Ctx
 	Cover  bool // expected NOT to be unsat
 	Result *SolveResult
+	Replay *ReplayInfo // how to run the real function (top-level functions only)
+	Clause *Clause     // the postcondition, for ensures obligations
 }
